@@ -156,4 +156,35 @@ def _bad_return(which, rng):
                        {"$": "set", "v": ["p"]}])
 
 
-SWEEPS = {"C11": sweep_collab, "C12": sweep_crash, "C13": sweep_ioerror}
+def sweep_listing(prop, seed, cfg, ops, tier, agg):
+    """C15: the history as generated, plus an OSError at a few sampled I/O
+    calls of rewriting operations: nothing may be left behind once the call
+    has raised (only that clause is judged here; the rest is C13's)."""
+    from .runner import run_case
+    base = run_case(prop, cfg, ops)
+    agg.add_result(seed, cfg, ops, base)
+    if base.violation or base.harness or base.foreign:
+        return
+    if seed % 4 and tier == "quick":
+        return
+    w = base.world
+    rng = random.Random(seed * 7919 + 15)
+    targets = [j for j, op in enumerate(ops) if op["op"] in REWRITES and
+               len(w.op_steps.get(j, ())) > 12]
+    for j in _pick(rng, targets, 1 if tier == "quick" else 4):
+        cands = []
+        for s in w.op_steps.get(j, ()):
+            if s[1] in PRE_ELIGIBLE:
+                cands.append((s, "pre"))
+            if s[1] in POST_ELIGIBLE:
+                cands.append((s, "post"))
+        for s, mode in _pick(rng, cands[len(cands) // 2:],
+                             3 if tier == "quick" else 12):
+            f = {"step": s[0], "mode": mode, "err": "EIO"}
+            ops2 = _variant(ops, j, f, False)
+            r = run_case(prop, cfg, ops2)
+            agg.add_result(seed, cfg, ops2, r)
+
+
+SWEEPS = {"C11": sweep_collab, "C12": sweep_crash, "C13": sweep_ioerror,
+          "C15": sweep_listing}
